@@ -1058,6 +1058,17 @@ pub fn bellman(args: &[String]) -> i32 {
             }
         }
     }
+    // the game clock is not part of the position the property talks about: every third position carries a
+    // halfmove clock of 99 (a search that values "fifty moves without progress" differently at
+    // the root and inside the tree no longer satisfies the recursion)
+    if fens.is_empty() {
+        for (i, b) in boards.iter_mut().enumerate() {
+            if i % 3 == 2 {
+                b.halfmove_clock = 99 as _;
+                b.fullmove_counter = 120 as _;
+            }
+        }
+    }
     let inf = 32767i32;
     let mut s = Searcher::new();
     // one completed full-window search of a fresh engine at exactly depth d: (value, move, deeper-entry hits)
@@ -1091,7 +1102,7 @@ pub fn bellman(args: &[String]) -> i32 {
             let (v, mv, deeper) = match value(&mut s, b, d) {
                 Some(x) => x,
                 None => {
-                    writeln!(w, "{}", json!({"ev":"bellman","fen":proj::project(b),"pos":proj::project_struct(b),"d":d,"panic":true})).ok();
+                    writeln!(w, "{}", json!({"ev":"bellman","fen":proj::project6(b),"pos":proj::project_struct(b),"d":d,"panic":true})).ok();
                     s = Searcher::new();
                     continue;
                 }
@@ -1122,7 +1133,7 @@ pub fn bellman(args: &[String]) -> i32 {
                 excluded += 1;
                 continue;
             }
-            writeln!(w, "{}", json!({"ev":"bellman","fen":proj::project(b),"pos":proj::project_struct(b),"d":d,"v":clamp(v),
+            writeln!(w, "{}", json!({"ev":"bellman","fen":proj::project6(b),"pos":proj::project_struct(b),"d":d,"v":clamp(v),
                                      "move":mv.map(|m| proj::move_text(&m)).unwrap_or_else(|| "-".into()),"kids":kids,
                                      "excluded_deeper_entry_reused":excluded})).ok();
         }
